@@ -59,6 +59,9 @@ def make_variable_handler(
         script: bytes, pc: int, verify_minimal_data: bool = False
     ) -> tuple[int, bytes | None]:
         size, pc = dec_f(script, pc)
+        if size is None:
+            # truncated length field: malformed, like truncated data below
+            return pc + 1, None
         data = bytes_as_hex(script[pc : pc + size])
         if len(data) < size:
             return pc + 1, None
